@@ -384,7 +384,9 @@ func isNullableTypeNamed(t *ast.Type, typename string) bool {
 }
 
 func isNodeField(f *ast.FieldDefinition) bool {
-	if common.IsNodeInterfaceName(f.Name) || len(f.Arguments) != 1 {
+	// the relay lookup field is `node(id: ID!): Node`; another field of the same
+	// shape (`lookup(id: ID!): Node`) is an ordinary field of the service which declares it
+	if f.Name != common.NodeFieldName || len(f.Arguments) != 1 {
 		return false
 	}
 	arg := f.Arguments[0]
